@@ -231,3 +231,12 @@ PROPS["C15"] = dict(
                pre=["optable", "-out", "optable.json"]),
     ],
 )
+
+PROPS["C04"] = dict(
+    rule="BFS: MatMul every ordered pair of operand shapes of rank 1..3 extents 1..3 plus rank 4 extents 1..2 (thorough: rank 1..4 extents "
+         "1..3 plus rank 5 extents 1..2), integer ids so results are exact; Gemm 4 transpose combinations x (alpha,beta) pairs x 8 kinds "
+         "of C x (M,K,N) in {1,2,3}^3, dtype sweep; LinearRegressor targets x features x batch x intercept forms; Scaler shapes x offset/"
+         "scale lengths; non-trivial = expected tensor with more than one element or expected error",
+    assumptions=["values are compared exactly on integer-valued data (stronger than a rounding bound); the rounding bound on non-integer data is not exercised"],
+    stages=lambda tier: [mc("linear-ops", "MC_C04.tla", "MC_C04_%s.cfg" % tier, min_cases=8000)],
+)
